@@ -87,4 +87,18 @@ def DocOutcome.nodes : DocOutcome → Option (List Node)
   | .ok indis others _ => some (eraseList (indis.map (·.2)) ++ eraseList others)
   | _ => none
 
+/-- the whole pipeline, end to end: C11's model of `Compare` (`Match.winners` on the jobs in their
+    order of arrival) feeding `IndividualNodes.Merge` and the merge of the other records.  This is
+    what the driver runs for the `mergecomposed` requests and what `accounting_end_to_end` is about. -/
+def mergeComposed (Lp Rp : List Person) (minW : Rat) (arrival : List Job) (Ld Rd : List INode)
+    (st : MSt) : DocOutcome :=
+  mergeDocs (winners Lp Rp minW arrival) Ld Rd st
+
+/-- the conclusion of `accounting_end_to_end`, as the driver evaluates it on every case: one
+    output individual per comparison and every individual of either input in exactly one -/
+def accountedB (L R : List INode) (out : List (Res × INode)) : Bool :=
+  let rs := out.map (·.1)
+  (L.map INode.id).all (fun x => rs.countP (fun r => r.1 == some x) == 1) &&
+  (R.map INode.id).all (fun y => rs.countP (fun r => r.2 == some y) == 1)
+
 end Gedcom.MergeD
